@@ -70,6 +70,29 @@ Fixpoint final (fuel : nat) (f : string) (req : list positive) (opt : list aform
     end
   end.
 
+(* the chain of (function, selected rule index) that `final` follows -- the observable the correspondence compares with
+   the dispatches traced on the real code *)
+Fixpoint chain (fuel : nat) (f : string) (req : list positive) (opt : list aform) : list (string * N) :=
+  match fuel with
+  | O => []
+  | S k =>
+    match spec_of f with
+    | None => []
+    | Some fs =>
+      match select fs req opt with
+      | Unique i =>
+        (f, 2 + N.of_nat i)%N ::
+        match nth_error (frules fs) i with
+        | Some r => if is_struct (oppos f) r then []
+                    else match forward f req opt with Some (g, req', opt') => chain k g req' opt' | None => [] end
+        | None => []
+        end
+      | Ambiguous => [(f, 1%N)]
+      | NotFound => [(f, 0%N)]
+      end
+    end
+  end.
+
 (* ---- committed exceptions = the selection flags of C19 (DESIGN.md section 5, C19) ---- *)
 Definition cls (A : positive) : string := class_name (rep_class A).
 Definition alg_positional (opt : list aform) : bool := match last opt Omit with Pos _ => true | _ => false end.
@@ -112,6 +135,27 @@ Definition c19_sweep excs : bool :=
 
 Definition all_exceptions := [exc_exp_kronsum; exc_pow_kron; exc_inv_gmres].
 
+Lemma c19_sweep_sound : forall excs, c19_sweep excs = true ->
+  forall f fs, In f c19_functions -> spec_of f = Some fs ->
+  forall c, In c (calls (restrict fs)) -> c19_ok excs f c = true.
+Proof.
+  intros excs H f fs Hf Hs c Hc. unfold c19_sweep in H. rewrite forallb_forall in H.
+  specialize (H f Hf). rewrite Hs in H. rewrite forallb_forall in H. exact (H c Hc).
+Qed.
+
+Lemma c19_ok_spec : forall e1 e2 e3 f req opt, c19_ok [e1; e2; e3] f (req, opt) = true ->
+  let (o, scope) := final 4 f req opt in
+  scope = true ->
+    o = Structural \/ (o = Generic /\ (e1 f req opt || e2 f req opt = true)) \/ (o = NonUnique /\ e3 f req opt = true).
+Proof.
+  intros e1 e2 e3 f req opt H. unfold c19_ok in H. cbn [fst snd] in H.
+  destruct (final 4 f req opt) as (o, scope). intros ->.
+  destruct o.
+  - now left.
+  - right; left. split; [reflexivity|]. cbn [firstn existsb] in H. now rewrite orb_false_r in H.
+  - right; right. split; [reflexivity|]. cbn [skipn existsb] in H. now rewrite orb_false_r in H.
+Qed.
+
 Lemma c19_sweep_true : c19_sweep all_exceptions = true.
 Proof. vm_compute. reflexivity. Qed.
 
@@ -128,15 +172,9 @@ Theorem structural_rule_selected_modulo_flags :
       \/ (o = NonUnique /\ exc_inv_gmres f req opt = true).
 Proof.
   intros f fs Hf Hs req opt Hadm.
-  pose proof c19_sweep_true as H. unfold c19_sweep in H. rewrite forallb_forall in H.
-  specialize (H f Hf). rewrite Hs in H. rewrite forallb_forall in H.
-  specialize (H (req, opt) (proj2 (lattice_complete (restrict fs) req opt) Hadm)).
-  unfold c19_ok in H. cbn [fst snd] in H.
-  destruct (final 4 f req opt) as (o, scope). intros ->.
-  destruct o.
-  - now left.
-  - right; left. split; [reflexivity|]. cbn [all_exceptions firstn existsb] in H. now rewrite orb_false_r in H.
-  - right; right. split; [reflexivity|]. cbn [all_exceptions skipn existsb] in H. now rewrite orb_false_r in H.
+  apply c19_ok_spec.
+  exact (c19_sweep_sound all_exceptions c19_sweep_true f fs Hf Hs (req, opt)
+           (proj2 (lattice_complete (restrict fs) req opt) Hadm)).
 Qed.
 
 (* the statement without the flags, for the record: false on the pinned tree, see the refutations in PropsC19.v *)
